@@ -8,7 +8,7 @@ from vc.reflect import reflect_bool_method
 from vc.lemmas import Lemma
 from vc import sm
 from contracts.pattern_family import c12_contracts
-from contracts.interp_sim import sim_unit, phase_switch_unit, symbol_unit, METHODS, PHASES_OF, SIFILE
+from contracts.interp_sim import sim_unit, phase_switch_unit, symbol_unit, METHODS, PHASES_OF, SIFILE, sim_bounded
 
 STFILE = 'generation/src/proof_generation/stateful_interpreter.py'
 
@@ -55,4 +55,23 @@ def build(repo, tier):
                         'REGIONS excluded from the step obligations, each an OPEN KNOWN FINDING with a witness replayed on every run: machine side conditions the python side never evaluates (mu positivity, esubst/ssubst well-formedness, metavar app_ctx_holes/e_fresh disjointness, instantiate constraint lists and capture) and the fresh-skip divergence of python vs checker instantiation; publish_* keep the published term on the tracker stack'],
                     functions=[(SIFILE, 'SerializingInterpreter.' + m) for m in list(METHODS) + ['symbol', 'into_claim_phase', 'into_proof_phase']] +
                               [(STFILE, 'StatefulInterpreter.' + m) for m in METHODS] + dfn, notes=notes)
+    spec.unit_bounded = lambda unit_name, tier, seed: _bounded(unit_name, repo.root, tier, seed)
+    spec.lemma_replayers['C04/py/SerializingInterpreter.'] = lambda name, model, root: _replay(name, root)
     return spec
+
+
+def _bounded(unit_name, root, tier, seed):
+    parts = unit_name.split('/')
+    if len(parts) < 4 or not parts[2].startswith('SerializingInterpreter.'):
+        return None, 0
+    meth = parts[2].split('.')[1].split('[')[0]
+    return sim_bounded(meth, parts[3], root, tier, seed)
+
+
+def _replay(name, root):
+    """a refuted step obligation: look for a concrete witness on the real interpreter (bounded, seeded) and report it"""
+    w, n = _bounded(name, root, 'thorough', 0)
+    if w is not None:
+        w['bounded_evaluated'] = n
+        return True, w
+    return False, {'note': f'no failing input among {n} small concrete states', 'bounded_evaluated': n}
